@@ -779,6 +779,9 @@ type BuildOpt struct {
 	// requested build - a long-lived project, as under `dawn watch`. The warm-up's executions are not fed to the model
 	// (they re-establish what the model already knows: everything was current before the edits).
 	WarmOverlay string
+	// DryFirst: the build is preceded, on the same loaded Project, by a dry run of the same target (a REPL session or a
+	// library user doing run(dry_run=True) and then run())
+	DryFirst bool
 }
 
 // Build runs one build of target and feeds the execution log to the model. It returns the
@@ -796,6 +799,9 @@ func (e *Engine) Build(target string, o BuildOpt) (*Step, BuildRes, bool) {
 	if o.WarmOverlay != "" {
 		req.WarmOverlay, req.WarmLog = o.WarmOverlay, e.S.LogPath()
 	}
+	if o.DryFirst && !o.Dry {
+		req.Twice, req.DryFirst = true, true
+	}
 	var res BuildRes
 	alive := true
 	switch {
@@ -805,6 +811,16 @@ func (e *Engine) Build(target string, o BuildOpt) (*Step, BuildRes, bool) {
 		res = e.Live.Build(req) // Reload() + Run() on one long-lived Project (the `dawn watch` path)
 	default:
 		res = Build(req)
+	}
+	if o.DryFirst && !o.Dry {
+		// the result that counts is the real (second) run's; its events follow the SecondRun marker
+		res.RunErr = res.Run2Err
+		for i, ev := range res.Events {
+			if ev.Kind == "SecondRun" {
+				res.DryEvents, res.Events = res.Events[:i], res.Events[i+1:]
+				break
+			}
+		}
 	}
 	e.LastRes = res
 	desc := target
